@@ -4,7 +4,7 @@
    reference model says; closed form over Z), SchedCycleStop.v (cycle steps).
    See manifest.d/C03.json for what is full / partial / refuted. *)
 From Hio Require Import Base.Prelude Base.AMap Base.Time Model.Sched Proofs.SchedFrame Proofs.SchedLife Proofs.SchedTop
-  Proofs.SchedCycleTick Proofs.SchedCycleDue Proofs.SchedCycleRef Proofs.SchedCycleStop.
+  Proofs.SchedCycleTick Proofs.SchedCycleDue Proofs.SchedCycleRef Proofs.SchedCycleStop Proofs.SchedCycleTree.
 
 (* ------------------------------------------------------------------ *)
 (* 1. The clock.  FULL: every program (static or dynamic, flat or nested, with
@@ -269,6 +269,77 @@ Proof.
   cbv zeta. split; [vm_compute; reflexivity|]. split.
   - split; [reflexivity|]. split; [repeat constructor; cbn; intuition discriminate|].
     intros d [<-|[<-|[]]]; vm_compute; repeat split; discriminate.
+  - vm_compute. repeat split.
+Qed.
+
+(* ------------------------------------------------------------------ *)
+(* 6. NESTED static programs: forests of effect-free, fault-free leaves and
+   non-`always` DoDoers with ANY tock (tree_static p forest: the root doers are the
+   roots of a forest that agrees with the definitions; all ids distinct, none 0).
+   The reference cycle model on trees (Proofs/SchedCycleTree.v): an item is a leaf
+   (id, due, pc) or a DoDoer (id, due, kids); a DoDoer item is due like a leaf (it
+   yields its own |tock| every pass, so the parent re-schedules it by next_due);
+   when due it runs one reference pass over its kids with asap tock |its tock| (the
+   D35 semantics, stated positively) and returns when its deque is empty.
+   FULL under the side condition oof = false: do_run computes exactly this
+   reference: same recur steps (doer, tyme) of all leaves AND DoDoers in the same
+   order, same final tyme, same Doist.done. *)
+Theorem C03_tree_refines :
+  forall (T : Type) (TT : Time T) (cycles fuel : nat) (p : prog T) (forest : list ptree),
+    tree_static p forest -> oof (do_run cycles fuel p) = false ->
+    exists blocks (dn : bool),
+      tref_run cycles p forest = Some (blocks, tyme (do_run cycles fuel p), dn) /\
+      recur_steps (do_run cycles fuel p) = concat blocks /\
+      get_done (do_run cycles fuel p) 0%N = Some dn.
+Proof. intros. now apply do_run_tree. Qed.
+Print Assumptions C03_tree_refines.
+
+(* ... hence for nested programs too: one block of recur steps per cycle, block k
+   at tyme grid k; the doers of a block are a sub-sequence of the depth-first
+   pre-order of the forest (plids): every doer - leaf or DoDoer, at any depth - runs
+   at most once per cycle, a DoDoer before its descendants, siblings in enter order;
+   the run ends at grid(#cycles). *)
+Theorem C03_tree_once_in_order :
+  forall (T : Type) (TT : Time T) (cycles fuel : nat) (p : prog T) (forest : list ptree),
+    tree_static p forest -> oof (do_run cycles fuel p) = false ->
+    exists blocks,
+      recur_steps (do_run cycles fuel p) = concat blocks /\
+      blocks_ok (p_tock p) (p_tyme p) (plids forest) blocks /\
+      NoDup (plids forest) /\
+      tyme (do_run cycles fuel p) = grid (p_tyme p) (p_tock p) (length blocks).
+Proof.
+  intros T TT cycles fuel p forest St O.
+  destruct (do_run_tree cycles fuel p forest St O) as (res & dn & R & S & _).
+  unfold tref_run in R. apply tref_cycles_blocks in R. destruct R as (news & -> & _ & Fin & B).
+  exists news. cbn [app]. split; [exact S|]. split.
+  - eapply blocks_ok_sub; [|exact B]. apply tenters_ids.
+  - split; [apply St|exact Fin].
+Qed.
+Print Assumptions C03_tree_once_in_order.
+
+(* a forest three levels deep with DoDoer tocks 0 and 5 under a root tock 3 *)
+Definition ex_tree : prog Z :=
+  let R := {| f_es := []; f_out := OReturn RTrue |} in
+  {| p_tock := 3%Z; p_limit := None; p_tyme := 105%Z; p_doers := [3; 4; 8]%N;
+     p_defs := [(1, FLeaf KDoer [Y None; Y (Some 0%Z); Y (Some 7%Z); R]); (2, FLeaf KDoer [Y None; Y None]);
+                (3, FNest 0%Z false [1; 2]); (4, FNest 5%Z false [5; 6]);
+                (5, FLeaf KFunc [Y None; Y (Some 3%Z); Y (Some 3%Z)]); (6, FNest 0%Z false [7]);
+                (7, FLeaf KDoerGen [Y None; Y None; Y None]); (8, FLeaf KFunc [Y None; Y (Some 4%Z); R])]%N |}.
+Definition ex_forest : list ptree :=
+  [PNest 3 [PLeaf 1; PLeaf 2]; PNest 4 [PLeaf 5; PNest 6 [PLeaf 7]]; PLeaf 8]%N.
+
+Example C03_example_tree :
+  tree_static ex_tree ex_forest /\ oof (do_run 40 200 ex_tree) = false /\
+  option_map (fun r => (concat (fst (fst r)), snd (fst r), snd r)) (tref_run 40 ex_tree ex_forest) =
+    Some (recur_steps (do_run 40 200 ex_tree), tyme (do_run 40 200 ex_tree), true) /\
+  (* DoDoer 4 (tock 5) is due at 105, 110, 115 and runs at 105, 111, 117 (cumulative, no drift); leaf 1 shows D35: 105, 108, 114 *)
+  map snd (filter (fun x => N.eqb (fst x) 4) (recur_steps (do_run 40 200 ex_tree))) = [105; 111; 117]%Z /\
+  map snd (filter (fun x => N.eqb (fst x) 1) (recur_steps (do_run 40 200 ex_tree))) = [105; 108; 114]%Z.
+Proof.
+  split.
+  - split; [reflexivity|]. split.
+    + repeat (constructor; try (econstructor; [reflexivity|])); try reflexivity.
+    + split; [vm_compute; repeat constructor; cbn; intuition discriminate|vm_compute; intuition discriminate].
   - vm_compute. repeat split.
 Qed.
 
